@@ -20,6 +20,11 @@ fn main() {
     let tier = Tier::from_env_or_args(&args);
     vmodel::par::quiet_panics();
     let which = args.get(1).map(|s| s.as_str()).unwrap_or("");
+    // a load that does not terminate is a violation of the property being checked (and of C09)
+    let pid: &'static str = Box::leak(which.chars().take(3).collect::<String>().to_uppercase().into_boxed_str());
+    if pid.starts_with('C') && which.len() == 3 {
+        obs::start_watchdog(pid);
+    }
     let code = match which {
         "c01" => c01::run(tier),
         "c03" => c03::run(tier),
